@@ -82,7 +82,7 @@ class ReplaceStep(Step):
 
     def to_json(self) -> JSONDict:
         json_data: JSONDict = {"stepType": "replace", "from": self.from_, "to": self.to}
-        if self.slice.size:
+        if self.slice.content.size:
             json_data = {
                 **json_data,
                 "slice": self.slice.to_json(),
@@ -203,7 +203,7 @@ class ReplaceAroundStep(Step):
             "gapTo": self.gap_to,
             "insert": self.insert,
         }
-        if self.slice.size:
+        if self.slice.content.size:
             json_data = {
                 **json_data,
                 "slice": self.slice.to_json(),
